@@ -131,6 +131,9 @@ type Solver struct {
 	Args func(file string, timeout time.Duration) []string
 }
 
+// CoverTimeout bounds the solver time spent on a reachability cover.
+var CoverTimeout = 5 * time.Second
+
 // SolverSeed is passed to the z3 back ends as smt.random_seed (0 = solver default); only the baseline
 // admission run varies it, to detect obligations whose proof time is unstable.
 var SolverSeed = 0
@@ -199,6 +202,10 @@ func (ex *Exec) SolveAll(obls []*Obligation, dir string, timeout time.Duration, 
 }
 
 func (ex *Exec) solveOne(o *Obligation, dir string, idx int, timeout time.Duration, crossCheck bool) *SolveResult {
+	if o.Cover && timeout > CoverTimeout {
+		// reachability covers are diagnostics (vacuity, dead return sites), never claimed: a short budget is enough
+		timeout = CoverTimeout
+	}
 	file := filepath.Join(dir, fmt.Sprintf("o%04d_%s.smt2", idx, sanitize(truncate(o.Name, 80))))
 	want := "unsat"
 	if o.Cover {
